@@ -63,6 +63,8 @@ def gen_events(rng, parties, max_events, min_len=0, style=None, values='small',
                 v = n
             elif values == 'dups':
                 v = rng.choice([0, 1, 1, 2])
+            elif values == 'huge':      # beyond 32 bits (typed state arrays), still far from the int64 limit when summed
+                v = rng.choice([2 ** 31 - 1, 2 ** 31, 2 ** 32 + 5, rng.randint(2 ** 31, 2 ** 40), rng.randint(0, 9)])
             else:
                 v = rng.randint(-50, 50)
             script.append((d, [v, 1 if rng.random() < p_close else 0]))
